@@ -37,6 +37,7 @@ def check(repo: Repo, rep: Report) -> None:
     rep.rule("E6-exit-if-empty", "thread slot cleared in the region that decides emptiness", floor=1)
     rep.rule("E7-fifo", "immediate actions FIFO; schedule enqueues+notifies+ensures thread in one region", floor=4)
     rep.rule("E8-dispose", "dispose: locked test-and-set + notify; schedule* raise DisposedException once disposed", floor=3)
+    rep.rule("E10-clamp-relative", "negative relative due times are clamped to zero", floor=1)
     rep.rule("E9-no-reacquire", "the non-reentrant condition is never re-acquired while held", floor=1)
     cls = repo.fn(E, "EventLoopScheduler")
     cl = ClassLocks(repo, cls, ["self._condition"], FIELDS)
@@ -145,6 +146,14 @@ def check(repo: Repo, rep: Report) -> None:
         ok = ok and all(raises[0].index < e.index for e in first_eff)
         rep.ob("E8-dispose", m, f"{mname}: raise DisposedException when disposed, before any effect", ok,
                "scheduling on a disposed scheduler does not raise DisposedException")
+    rel = repo.fn(E, "EventLoopScheduler.schedule_relative")
+    clamp = [s for s in sites(rel) if isinstance(s.node, ast.Call) and isinstance(s.node.func, ast.Name) and s.node.func.id == "max"
+             and any(u(a) in ("DELTA_ZERO", "timedelta(0)") for a in s.node.args) and any(rel.params[1] in u(a) for a in s.node.args)]
+    fwd = [s for s in sites(rel) if isinstance(s.node, ast.Call) and dotted(s.node.func) == "self.schedule_absolute"]
+    ok = len(clamp) == 1 and len(fwd) == 1 and isinstance(clamp[0].stmt, ast.Assign) and u(clamp[0].stmt.targets[0]) in u(fwd[0].node.args[0]) \
+        and "self.now" in u(fwd[0].node.args[0])
+    rep.ob("E10-clamp-relative", rel, "duetime = max(DELTA_ZERO, to_timedelta(duetime)); schedule_absolute(now + duetime)", ok,
+           "a negative relative due time is not clamped to zero: the item overtakes actions submitted earlier (submission order lost)")
     # E9
     kind = lock_kind(repo, cls, "_condition")
     bad = reacquire_sites(repo, cls, {"self._condition"}) if kind in ("Lock", "Condition(Lock)") else []
